@@ -167,11 +167,6 @@ class Filenames(object):
         # Return static filenames
         for item in static:
             currentns = self.variables.copy()
-            for key, value in list(currentns.items()):
-                if self.charsub:
-                    for char in self.charsub[0]:
-                        value = value.replace(char, self.charsub[1])
-                currentns[key] = value
             for key, format in keysre.findall(item):
                 # Supply a file number as needed
                 if key == 'num':
@@ -180,6 +175,13 @@ class Filenames(object):
                 elif format and key in currentns:
                     value = currentns[key].split()
                     currentns[key] = ' '.join(value[:int(format)])
+            # Replace the forbidden characters (after the words have been
+            # counted: the blank is usually one of them)
+            for key, value in list(currentns.items()):
+                if self.charsub:
+                    for char in self.charsub[0]:
+                        value = value.replace(char, self.charsub[1])
+                currentns[key] = value
             try:
                 # Strip formats
                 item = re.sub(r'(\$\{\w+)\.\d+(\})', r'\1\2', item)
@@ -205,11 +207,6 @@ class Filenames(object):
             passes += 1
             for item in wildcard:
                 currentns = self.variables.copy()
-                for key, value in list(currentns.items()):
-                    if self.charsub:
-                        for char in self.charsub[0]:
-                            value = value.replace(char, self.charsub[1])
-                    currentns[key] = value
                 for key, format in keysre.findall(item):
                     # Supply a file number as needed
                     if key == 'num':
@@ -218,6 +215,13 @@ class Filenames(object):
                     elif format and key in currentns:
                         value = currentns[key].split()
                         currentns[key] = ' '.join(value[:int(format)])
+                # Replace the forbidden characters (after the words have
+                # been counted: the blank is usually one of them)
+                for key, value in list(currentns.items()):
+                    if self.charsub:
+                        for char in self.charsub[0]:
+                            value = value.replace(char, self.charsub[1])
+                    currentns[key] = value
                 try:
                     # Strip formats
                     item = re.sub(r'(\$\{\w+)\.\d+(\})', r'\1\2', item)
